@@ -284,7 +284,9 @@ theorem allShrinks_list : ∀ (xs : List Node) (rs : List (Node × Bool)), AllSh
       · intro hf
         simp only [List.any_cons, Bool.or_eq_false_iff] at hf
         simp only [List.map_cons]
-        rw [h1.1 hf.1, ih'.1 hf.2]
+        have e2 := ih'.1 hf.2
+        simp only at e2
+        rw [h1.1 hf.1, e2]
       · intro ht
         simp only [List.any_cons, Bool.or_eq_true] at ht
         simp only [List.map_cons, weightList]
@@ -360,10 +362,251 @@ theorem visit_shrinks (f : Nat) (n : Node) : Shrinks n (visit f n) := by
     simpa using this
   · -- binaryTest
     rename_i op v x y
-    sorry
+    have hx := (unquoteParams_shrinks x).comp (removeNegateTest_shrinks (unquoteParams x).1)
+    dsimp only
+    generalize hop' : (if op = tsMatchShort then tsMatch else op) = op'
+    generalize hy1d : (if (decide (op' = tsMatch) || decide (op' = tsNoMatch) || decide (op' = tsReMatch)) = true
+      then (y, false) else unquoteParams y) = y1
+    have hy1 : Shrinks y y1 := by
+      rw [← hy1d]; split
+      · exact shrinks_refl y
+      · exact unquoteParams_shrinks y
+    have hy := hy1.comp (removeNegateTest_shrinks y1.1)
+    have hb : bonus .binaryTest [op'] ≤ bonus .binaryTest [op] ∧
+        (op = tsMatchShort → bonus .binaryTest [op'] < bonus .binaryTest [op]) ∧
+        (¬ op = tsMatchShort → op' = op) := by
+      rw [← hop']
+      by_cases hs : op = tsMatchShort
+      · subst hs; simp [bonus, tsMatch, tsMatchShort]
+      · simp [hs]
+    have lx := hx.le
+    have ly := hy.le
+    simp only at lx ly
+    constructor
+    · intro hf
+      simp only [Bool.or_eq_false_iff, decide_eq_false_iff_not] at hf
+      obtain ⟨⟨⟨⟨f1, f2⟩, f3⟩, f4⟩, f5⟩ := hf
+      have ex := hx.1 (by simp [f1, f2])
+      have ey := hy.1 (by simp [f4, f5])
+      simp only at ex ey
+      simp only
+      rw [ex, ey, hb.2.2 f3]
+    · intro ht
+      simp only [Bool.or_eq_true, decide_eq_true_eq] at ht
+      simp only [weight, weightList]
+      rcases ht with (((h | h) | h) | h) | h
+      · have := hx.2 (by simp [h]); simp only at this; omega
+      · have := hx.2 (by simp [h]); simp only at this; omega
+      · have := hb.2.1 h; omega
+      · have := hy.2 (by simp [h]); simp only at this; omega
+      · have := hy.2 (by simp [h]); simp only at this; omega
   · rename_i a v x
     have := mk_shrinks_kids .unaryTest a v [x] [unquoteParams x] ⟨unquoteParams_shrinks x, trivial⟩
     simpa using this
   · exact shrinks_refl n
+
+
+/-! ### simp -/
+
+theorem allShrinks_map (g : Node → Node × Bool) (hg : ∀ x, Shrinks x (g x)) :
+    ∀ xs : List Node, AllShrinks xs (xs.map g) := by
+  intro xs
+  induction xs with
+  | nil => trivial
+  | cons x xs ih => exact ⟨hg x, ih⟩
+
+theorem simp_shrinks : ∀ (f : Nat) (n : Node), Shrinks n (simp f n) := by
+  intro f
+  induction f with
+  | zero => intro n; exact shrinks_refl n
+  | succ f ih =>
+    intro n
+    have hv := visit_shrinks (f+1) n
+    have hk := mk_shrinks_kids (visit (f+1) n).1.ty (visit (f+1) n).1.attrs (visit (f+1) n).1.val
+      (visit (f+1) n).1.kids ((visit (f+1) n).1.kids.map (simp f)) (allShrinks_map (simp f) ih _)
+    rw [node_eta] at hk
+    exact hv.comp hk
+
+theorem simp_unchanged (f : Nat) (n : Node) (h : (simp f n).2 = false) : (simp f n).1 = n :=
+  (simp_shrinks f n).1 h
+
+theorem simp_weight_lt (f : Nat) (n : Node) (h : (simp f n).2 = true) : weight (simp f n).1 < weight n :=
+  (simp_shrinks f n).2 h
+
+theorem simp_weight_le (f : Nat) (n : Node) : weight (simp f n).1 ≤ weight n :=
+  (simp_shrinks f n).le
+
+/-- The returned bool is `true` exactly when the tree changed. -/
+theorem reports_change_aux (n : Node) : (simplify n).2 = true ↔ (simplify n).1 ≠ n := by
+  unfold simplify
+  constructor
+  · intro h e
+    have := simp_weight_lt _ n h
+    rw [e] at this
+    exact Nat.lt_irrefl _ this
+  · intro h
+    cases hb : (simp (2 * size n + 1) n).2 with
+    | true => rfl
+    | false => exact absurd (simp_unchanged _ n hb) h
+
+
+/-! ### the fuel never runs out -/
+
+mutual
+theorem weight_le_size : ∀ n : Node, weight n ≤ 2 * size n
+  | .mk ty a v ks => by
+    have := weightList_le_size ks
+    simp only [weight, size, bonus]
+    split <;> omega
+theorem weightList_le_size : ∀ ks : List Node, weightList ks ≤ 2 * sizeList ks
+  | [] => by simp [weightList, sizeList]
+  | k :: ks => by
+    have := weight_le_size k
+    have := weightList_le_size ks
+    simp only [weightList, sizeList]
+    omega
+end
+
+theorem removeParensArithm_fuel : ∀ (f g : Nat) (x : Node), weight x ≤ f → weight x ≤ g →
+    removeParensArithm f x = removeParensArithm g x := by
+  intro f
+  induction f with
+  | zero => intro g x h; have := weight_pos x; omega
+  | succ f ih =>
+    intro g x hf hg
+    cases g with
+    | zero => have := weight_pos x; omega
+    | succ g =>
+      simp only [removeParensArithm]
+      split
+      · rename_i y
+        simp only [weight, weightList] at hf hg
+        rw [ih g y (by omega) (by omega)]
+      · rfl
+
+theorem removeParensTest_fuel : ∀ (f g : Nat) (x : Node), weight x ≤ f → weight x ≤ g →
+    removeParensTest f x = removeParensTest g x := by
+  intro f
+  induction f with
+  | zero => intro g x h; have := weight_pos x; omega
+  | succ f ih =>
+    intro g x hf hg
+    cases g with
+    | zero => have := weight_pos x; omega
+    | succ g =>
+      simp only [removeParensTest]
+      split
+      · rename_i y
+        simp only [weight, weightList] at hf hg
+        rw [ih g y (by omega) (by omega)]
+      · rfl
+
+theorem inlineSubshell_fuel : ∀ (f g : Nat) (xs : List Node), weightList xs < f → weightList xs < g →
+    inlineSubshell f xs = inlineSubshell g xs := by
+  intro f
+  induction f with
+  | zero => intro g xs h; omega
+  | succ f ih =>
+    intro g xs hf hg
+    cases g with
+    | zero => omega
+    | succ g =>
+      simp only [inlineSubshell]
+      split
+      · rename_i st
+        split
+        · rename_i inner hp
+          unfold plainStmtSubshell at hp
+          split at hp
+          · rename_i v a2 v2 stmts a3 v3
+            cases hp
+            simp only [weight, weightList] at hf hg
+            rw [ih g inner (by omega) (by omega)]
+          · simp at hp
+        · rfl
+      · rfl
+
+theorem arithTop_fuel (f g : Nat) (x : Node) (hf : weight x ≤ f) (hg : weight x ≤ g) :
+    arithTop f x = arithTop g x := by
+  simp only [arithTop, removeParensArithm_fuel f g x hf hg]
+
+theorem testTop_fuel (f g : Nat) (x : Node) (hf : weight x ≤ f) (hg : weight x ≤ g) :
+    testTop f x = testTop g x := by
+  simp only [testTop, removeParensTest_fuel f g x hf hg]
+
+theorem visit_fuel (f g : Nat) (n : Node) (hf : weight n ≤ f) (hg : weight n ≤ g) :
+    visit f n = visit g n := by
+  unfold visit
+  split
+  · rename_i a v nm value index arr
+    simp only [weight, weightList] at hf hg
+    rw [removeParensArithm_fuel f g index (by omega) (by omega)]
+  · rename_i a v flags param nested index mods off len orig wth expw
+    simp only [weight, weightList] at hf hg
+    rw [removeParensArithm_fuel f g index (by omega) (by omega),
+      arithTop_fuel f g off (by omega) (by omega), arithTop_fuel f g len (by omega) (by omega)]
+  · rename_i a v x
+    simp only [weight, weightList] at hf hg
+    rw [arithTop_fuel f g x (by omega) (by omega)]
+  · rename_i a v x
+    simp only [weight, weightList] at hf hg
+    rw [arithTop_fuel f g x (by omega) (by omega)]
+  · rename_i a v x
+    simp only [weight, weightList] at hf hg
+    rw [arithTop_fuel f g x (by omega) (by omega)]
+  · rfl
+  · rename_i a v stmts
+    simp only [weight] at hf hg
+    rw [inlineSubshell_fuel f g stmts (by omega) (by omega)]
+  · rename_i a v stmts
+    simp only [weight] at hf hg
+    rw [inlineSubshell_fuel f g stmts (by omega) (by omega)]
+  · rfl
+  · rename_i a v x
+    simp only [weight, weightList] at hf hg
+    rw [testTop_fuel f g x (by omega) (by omega)]
+  · rename_i a v x
+    simp only [weight, weightList] at hf hg
+    rw [testTop_fuel f g x (by omega) (by omega)]
+  · rfl
+  · rfl
+  · rfl
+
+theorem weight_mem_lt : ∀ (ks : List Node) (k : Node), k ∈ ks → weight k ≤ weightList ks := by
+  intro ks
+  induction ks with
+  | nil => intro k h; simp at h
+  | cons x xs ih =>
+    intro k h
+    simp only [weightList]
+    rcases List.mem_cons.mp h with rfl | h
+    · omega
+    · have := ih k h; omega
+
+theorem simp_fuel : ∀ (f g : Nat) (n : Node), weight n < f → weight n < g → simp f n = simp g n := by
+  intro f
+  induction f with
+  | zero => intro g n h; omega
+  | succ f ih =>
+    intro g n hf hg
+    cases g with
+    | zero => omega
+    | succ g =>
+      simp only [simp]
+      rw [visit_fuel (f+1) (g+1) n (by omega) (by omega)]
+      have hle := (visit_shrinks (g+1) n).le
+      have hk : ∀ k ∈ (visit (g+1) n).1.kids, simp f k = simp g k := by
+        intro k hk
+        have h1 := weight_mem_lt _ k hk
+        have h2 : weightList (visit (g+1) n).1.kids < weight (visit (g+1) n).1 := by
+          cases (visit (g+1) n).1 with
+          | mk ty a v ks => simp only [Node.kids, weight]; omega
+        exact ih g k (by omega) (by omega)
+      rw [List.map_congr_left hk]
+
+/-- Any fuel above the weight of the tree gives the result of `simplify`. -/
+theorem simp_fuel_irrelevant (f : Nat) (n : Node) (h : weight n < f) : simp f n = simplify n := by
+  have := weight_le_size n
+  exact simp_fuel f _ n h (by omega)
 
 end ShVerif.C04
